@@ -26,14 +26,16 @@ impl GGrid {
     pub fn random(r: &mut Rng, bands: usize, projected: bool) -> GGrid {
         let rows = 2 + r.below(5);
         let cols = 2 + r.below(6);
-        let d = *r.pick(&[0.25, 0.5, 1.0, 2.0]);
+        // (spacings and borders that binary32 cannot hold: the geometry of a file is read in double precision)
+        let d = *r.pick(&[0.25, 0.5, 1.0, 2.0, 0.1, 0.3]);
         let dlat = d;
         let dlon = *r.pick(&[d, d, d * 2.0, d / 2.0]);
         // a projected grid has at least one border beyond 720 in magnitude: all four, or only some (a grid
         // touching the equator or the central meridian of its projection, or straddling the limit)
         let (blat, blon) = if projected { *r.pick(&[(1000.0, 1000.0), (1000.0, 1000.0), (0.0, 1000.0), (1000.0, 0.0), (715.0, 1000.0), (-1000.0, 200.0), (0.0, -1000.0)]) } else { (0.0, 0.0) };
-        let lat_s = blat + r.range(-40, 40) as f64 * 0.5;
-        let lon_w = blon + r.range(-80, 80) as f64 * 0.5;
+        let fine = if r.chance(1, 3) { 0.1 } else { 0.0 };
+        let lat_s = blat + r.range(-40, 40) as f64 * 0.5 + fine;
+        let lon_w = blon + r.range(-80, 80) as f64 * 0.5 - 3.0 * fine;
         let lat_n = lat_s + dlat * (rows - 1) as f64;
         let lon_e = lon_w + dlon * (cols - 1) as f64;
         let values: Vec<f32> = (0..rows * cols * bands).map(|_| (r.range(-2000, 2000) as f32) / 16.0).collect();
@@ -242,6 +244,9 @@ fn pts(q: &[(f64, f64, &'static str)]) -> String {
 pub fn random_tree(r: &mut Rng) -> Vec<Sub> {
     // a root grid and, inside it, children aligned to the parent's nodes (and grandchildren)
     let mut root = GGrid::random(r, 2, false);
+    // (NTv2 headers are in arc seconds: borders on whole half degrees, as real files have them)
+    root.lat_s = (root.lat_s * 2.0).round() / 2.0;
+    root.lon_w = (root.lon_w * 2.0).round() / 2.0;
     root.rows = 4 + r.below(3);
     root.cols = 4 + r.below(3);
     root.dlat = 1.0;
